@@ -305,4 +305,199 @@ Proof.
   - apply (sized_rt get_octet (SCon 0 None false) bs _ bits rest (octets_inv bs Hb) Hu).
 Qed.
 
-Print Assumptions uper_leaf_rt.
+(* ------------------------------------------------------------------ (e) DER / BER and OER *)
+
+(* the top level of every shape is not OPTIONAL *)
+Lemma der_ty_not_opt t : not_opt (der_ty t) = true.
+Proof. destruct t as [e l|tg ms|tg s e l]; [destruct e|..]; reflexivity. Qed.
+
+Lemma oer_ty_not_opt t : not_opt (oer_ty t) = true.
+Proof. destruct t as [e l|tg ms|tg s e l]; [destruct e|..]; reflexivity. Qed.
+
+Lemma opt_ok_not_opt t v rest : not_opt t = true -> DerProofs.opt_ok t v rest.
+Proof. intros H. destruct t; cbn in *; try exact I. discriminate. Qed.
+
+Theorem pb_der_roundtrip_in_stream : forall t v bs rest,
+  wf_ty (der_ty t) = true -> wt (der_ty t) v = true -> pb_der t v = Some bs ->
+  zlen bs <= rssize_max -> pb_ber_dec t (bs ++ rest) = Some (v, rest).
+Proof.
+  intros t v bs rest Hwf Hwt Hd Hl. unfold pb_der in Hd. unfold pb_ber_dec.
+  apply (der_decodes_all (der_ty t) v bs rest Hwf Hwt Hd Hl).
+  apply opt_ok_not_opt. apply der_ty_not_opt.
+Qed.
+
+Theorem pb_der_roundtrip : forall t v bs,
+  wf_ty (der_ty t) = true -> wt (der_ty t) v = true -> pb_der t v = Some bs ->
+  zlen bs <= rssize_max -> pb_ber_decode t bs = Some (v, zlen bs).
+Proof.
+  intros t v bs Hwf Hwt Hd Hl. unfold pb_der in Hd. unfold pb_ber_decode.
+  apply der_roundtrip; try assumption. apply der_ty_not_opt.
+Qed.
+
+Theorem pb_oer_roundtrip_in_stream : forall t v bs rest,
+  wf_ty_oer (oer_ty t) = true -> wt_oer (oer_ty t) v = true -> pb_oer t v = Some bs ->
+  pb_oer_dec t (bs ++ rest) = Some (v, rest).
+Proof.
+  intros t v bs rest Hwf Hwt Hd. unfold pb_oer in Hd. unfold pb_oer_dec.
+  apply oer_roundtrip_in_stream; try assumption. apply oer_ty_not_opt.
+Qed.
+
+(* ------------------------------------------------------------------ (d) the container shapes, PER *)
+
+Definition voct_ok (v : val) : bool := match v with VOct bs => bytes_okb bs | _ => false end.
+
+(* members: those of the base algebra as in UperProofs (for TOpt t' this is wf_u t' and t' not
+   OPTIONAL), string members: the leaf condition *)
+Definition wf_mem_uper (std : bool) (m : smem) : bool :=
+  match m with
+  | MBase t => wf_u t
+  | MStr _ _ l => wf_leaf std l
+  end.
+
+Definition wf_sty_uper (std : bool) (t : sty) : bool :=
+  match t with
+  | SStr _ l => wf_leaf std l
+  | SSeq _ ms => forallb (wf_mem_uper std) ms
+  | SSeqOf _ _ _ l => wf_leaf std l
+  end.
+
+Definition wt_mem_uper (std : bool) (m : smem) (v : val) : bool :=
+  match m with
+  | MBase t => wt_uper std t v
+  | MStr _ false _ => voct_ok v
+  | MStr _ true _ => match v with VNone => true | VSome v' => voct_ok v' | _ => false end
+  end.
+
+Fixpoint wt_mems_uper (std : bool) (ms : list smem) (vs : list val) : bool :=
+  match ms, vs with
+  | [], [] => true
+  | m :: ms', v :: vs' => wt_mem_uper std m v && wt_mems_uper std ms' vs'
+  | _, _ => false
+  end.
+
+Definition wt_sty_uper (std : bool) (t : sty) (v : val) : bool :=
+  match t, v with
+  | SStr _ _, _ => voct_ok v
+  | SSeq _ ms, VSeq vs => wt_mems_uper std ms vs
+  | SSeqOf _ _ _ _, VList vs => forallb voct_ok vs
+  | _, _ => false
+  end.
+
+Section Shapes.
+  Variable std : bool.
+
+  Lemma uper_lv_rt l v bits rest : wf_leaf std l = true -> voct_ok v = true ->
+    uper_lv std l v = Some bits -> uper_lv_dec std l (bits ++ rest) = Some (v, rest).
+  Proof.
+    intros Hwf Hv Hu. destruct v; try discriminate. cbn [voct_ok] in Hv. cbn [uper_lv] in Hu.
+    apply bytes_okb_spec in Hv. unfold uper_lv_dec.
+    rewrite (uper_leaf_rt std l bs bits rest Hwf Hv Hu). reflexivity.
+  Qed.
+
+  Lemma dec_mem_base t bits : dec_mem std (MBase t) bits = uper_dec std t bits.
+  Proof. destruct t; reflexivity. Qed.
+
+  Lemma mems_rt : forall ms vs body rest,
+    forallb (wf_mem_uper std) ms = true -> wt_mems_uper std ms vs = true ->
+    enc_mems std ms vs = Some body ->
+    dec_mems std ms (s_presence ms vs) (body ++ rest) = Some (vs, rest) /\
+    length (s_presence ms vs) = length (filter m_opt ms).
+  Proof.
+    induction ms as [|m ms' IH]; intros vs body rest Hwf Hwt He;
+      destruct vs as [|v vs']; cbn [enc_mems] in He; try discriminate.
+    - injection He as <-. split; reflexivity.
+    - cbn [forallb] in Hwf. apply andb_true_iff in Hwf. destruct Hwf as [Hw Hwr].
+      cbn [wt_mems_uper] in Hwt. apply andb_true_iff in Hwt. destruct Hwt as [Hwt1 Hwtr].
+      destruct (enc_mem std m v) as [a|] eqn:Ea; [|discriminate].
+      destruct (enc_mems std ms' vs') as [b|] eqn:Eb; [|discriminate]. injection He as <-.
+      destruct (IH vs' b rest Hwr Hwtr Eb) as [IH1 IH2].
+      rewrite <- app_assoc. cbn [s_presence filter dec_mems].
+      destruct m as [t|e o l].
+      + (* a member of the base algebra *)
+        cbn [wf_mem_uper] in Hw. cbn [wt_mem_uper] in Hwt1. cbn [enc_mem] in Ea. cbn [m_opt].
+        destruct (is_opt t) eqn:Eo.
+        * destruct t; try discriminate.
+          cbn [wf_u] in Hw. apply andb_true_iff in Hw. destruct Hw as [Hw1 Hw2].
+          destruct v; cbn [uper] in Ea; try discriminate.
+          -- injection Ea as <-. cbn [app]. rewrite IH1.
+             split; [reflexivity|cbn [length]; lia].
+          -- cbn [wt_uper] in Hwt1. cbn [app dec_mem].
+             assert (Hwft : wf_ty_uper t = true) by (unfold wf_ty_uper; rewrite Hw1, Hw2; reflexivity).
+             rewrite (uper_roundtrip_in_stream std t v a (b ++ rest) Hwft Hwt1 Ea). rewrite IH1.
+             split; [reflexivity|cbn [length]; lia].
+        * cbn [app]. rewrite dec_mem_base.
+          assert (Hwft : wf_ty_uper t = true) by (unfold wf_ty_uper; rewrite Hw, Eo; reflexivity).
+          rewrite (uper_roundtrip_in_stream std t v a (b ++ rest) Hwft Hwt1 Ea). rewrite IH1.
+          split; [reflexivity|exact IH2].
+      + (* a string member *)
+        cbn [wf_mem_uper] in Hw. cbn [m_opt]. destruct o.
+        * cbn [wt_mem_uper] in Hwt1. cbn [enc_mem] in Ea.
+          destruct v; try discriminate.
+          -- injection Ea as <-. cbn [app]. rewrite IH1.
+             split; [reflexivity|cbn [length]; lia].
+          -- cbn [app dec_mem]. rewrite (uper_lv_rt l v a (b ++ rest) Hw Hwt1 Ea). rewrite IH1.
+             split; [reflexivity|cbn [length]; lia].
+        * cbn [wt_mem_uper] in Hwt1. cbn [enc_mem] in Ea. cbn [app dec_mem].
+          rewrite (uper_lv_rt l v a (b ++ rest) Hw Hwt1 Ea). rewrite IH1.
+          split; [reflexivity|exact IH2].
+  Qed.
+
+  Lemma str_elems_inv l : wf_leaf std l = true -> forall vs es,
+    forallb voct_ok vs = true -> option_all (map (uper_lv std l) vs) = Some es ->
+    Forall2 (inv (uper_lv_dec std l)) vs es.
+  Proof.
+    intros Hwf. induction vs as [|v vs' IH]; intros es Hwt Ho.
+    - cbn in Ho. injection Ho as <-. constructor.
+    - cbn [map option_all] in Ho.
+      destruct (uper_lv std l v) as [a|] eqn:Ea; [|discriminate].
+      destruct (option_all (map (uper_lv std l) vs')) as [es'|] eqn:Eo; [|discriminate].
+      injection Ho as <-.
+      cbn [forallb] in Hwt. apply andb_true_iff in Hwt. destruct Hwt as [Hwt1 Hwtr].
+      constructor; [|apply IH; [exact Hwtr|reflexivity]].
+      intros r. apply uper_lv_rt; assumption.
+  Qed.
+End Shapes.
+
+(* C01 for unaligned PER on the three shapes, in a stream *)
+Theorem pb_uper_roundtrip_in_stream : forall std t v bits rest,
+  wf_sty_uper std t = true -> wt_sty_uper std t v = true -> pb_uper std t v = Some bits ->
+  pb_uper_dec std t (bits ++ rest) = Some (v, rest).
+Proof.
+  intros std t v bits rest Hwf Hwt Hu. destruct t as [e l|tg ms|tg s e l].
+  - cbn [wf_sty_uper] in Hwf. cbn [wt_sty_uper] in Hwt. cbn [pb_uper] in Hu. cbn [pb_uper_dec].
+    apply uper_lv_rt; assumption.
+  - destruct v; try discriminate. cbn [wf_sty_uper] in Hwf. cbn [wt_sty_uper] in Hwt.
+    cbn [pb_uper] in Hu.
+    destruct (enc_mems std ms vs) as [body|] eqn:Eb; [|discriminate]. injection Hu as <-.
+    destruct (mems_rt std ms vs body rest Hwf Hwt Eb) as [H1 H2].
+    cbn [pb_uper_dec]. rewrite <- app_assoc. rewrite <- H2. rewrite take_bits_app.
+    rewrite H1. reflexivity.
+  - destruct v; try discriminate. cbn [wf_sty_uper] in Hwf. cbn [wt_sty_uper] in Hwt.
+    cbn [pb_uper] in Hu.
+    destruct (option_all (map (uper_lv std l) vs)) as [es|] eqn:Eo; [|discriminate].
+    pose proof (str_elems_inv std l Hwf vs es Hwt Eo) as HF.
+    cbn [pb_uper_dec]. rewrite (sized_rt (uper_lv_dec std l) s vs es bits rest HF Hu). reflexivity.
+Qed.
+
+Local Ltac Zify.zify_post_hook ::= Z.to_euclidean_division_equations.
+
+(* complete encodings: the value comes back and exactly the octets produced (at least one) are
+   consumed *)
+Theorem pb_uper_decode_roundtrip : forall std t v bytes,
+  wf_sty_uper std t = true -> wt_sty_uper std t v = true -> pb_uper_encode std t v = Some bytes ->
+  pb_uper_decode std t bytes = Some (v, zlen bytes) /\ 1 <= zlen bytes.
+Proof.
+  intros std t v bytes Hwf Hwt He. unfold pb_uper_encode in He.
+  destruct (pb_uper std t v) as [bits|] eqn:Eu; [|discriminate].
+  unfold pb_uper_decode.
+  destruct bits as [|b0 tl] eqn:Ebits.
+  - injection He as <-.
+    pose proof (pb_uper_roundtrip_in_stream std t v [] (bytes_bits [0]) Hwf Hwt Eu) as Hr.
+    cbn [app] in Hr. rewrite Hr. rewrite Z.sub_diag. split; reflexivity.
+  - rewrite <- Ebits in *. injection He as <-.
+    destruct (bits_to_bytes_spec bits) as [Hb Hl]. rewrite Hb, Hl.
+    rewrite (pb_uper_roundtrip_in_stream std t v bits _ Hwf Hwt Eu).
+    rewrite zlen_app.
+    assert (Hpos : 1 <= zlen bits) by (rewrite Ebits, zlen_cons; pose proof (zlen_nonneg tl); lia).
+    split; [|lia]. f_equal. f_equal. lia.
+Qed.
